@@ -88,7 +88,7 @@ func c17Word(n int, script int, seed int) string {
 }
 
 var c17Patterns = [][]int{
-	{}, {1}, {9, 9, 9}, {10, 1, 10}, {11, 40, 1}, {40}, {1, 1, 1, 1, 1, 1, 1, 1, 1, 1, 1, 1}, {9, 10, 11, 40, 9}, {40, 40}, {5, 5, 5, 5, 5, 5, 5, 5}, {10, 10, 10}, {11, 11}, {1, 40, 1}, {25, 3, 25}, {9, 1, 9, 1, 9},
+	{}, {1}, {9, 9, 9}, {10, 1, 10}, {11, 40, 1}, {40, 9, 9, 9, 9, 9}, {1, 1, 1, 1, 1, 1, 1, 1, 1, 1, 1, 1}, {9, 10, 11, 40, 9}, {40}, {40, 40}, {5, 5, 5, 5, 5, 5, 5, 5}, {10, 10, 10}, {11, 11}, {1, 40, 1}, {25, 3, 25}, {9, 1, 9, 1, 9},
 }
 
 // description: marker word, then the pattern's words; lf > 0 puts a line break after the lf-th word
@@ -403,12 +403,12 @@ func init() {
 		Body:       body,
 		Setup:      c17Setup,
 		Rule: "row under test: long name of 0/1/5/20 characters in {ASCII, 2-byte, 3-byte} script x short name {none, ASCII, é} x value name {none, ASCII, non-ASCII} x choices?, plus every named row inside a group with a long namespace (153 rows), last of its block, on the parser or on an active command (indented) " +
-			"x neighbour row {widest of all, 1-character} x described positional {none, ASCII name, non-ASCII name} x description = marker word + word-length pattern (8 quick / 15 thorough patterns over lengths 1,5,9,10,11,25,40) in {ASCII, 2-byte, 3-byte} script x embedded line break {none, after marker, after first word} " +
+			"x neighbour row {widest of all, 1-character} x described positional {none, ASCII name, non-ASCII name} x description = marker word + word-length pattern (8 quick / 16 thorough patterns over lengths 1,5,9,10,11,25,40) in {ASCII, 2-byte, 3-byte} script x embedded line break {none, after marker, after first word} " +
 			"x every terminal width 1..130 (quick) / 1..300 (thorough), set with TIOCSWINSZ on a real pty whose slave is fd 0 (the library's own ioctl reads it); oracle: no panic; all descriptions (found through their marker words) start in one character column; " +
 			"every continuation line is exactly that many blanks + text; all lines valid UTF-8; joining hyphen breaks gives back the original word sequence; no description line longer than the width while width - column >= 10; distinct = distinct (column, width asserted?, script, line count)",
 		Assumptions:  []string{"columns are counted in characters (East-Asian display width is not modelled)", "descriptions contain no hyphens and no empty lines"},
 		RequiredHits: []string{"rendered", "wrapped", "width-asserted"},
-		Bound:        [2]string{"widths 1..130, 8 description patterns", "widths 1..300, 15 description patterns"},
+		Bound:        [2]string{"widths 1..130, 8 description patterns", "widths 1..300, 16 description patterns"},
 		BudgetS:      [2]int{110, 1500},
 	})
 }
